@@ -347,3 +347,55 @@ Example C16_find_measurements_example :
     Some [mkMX (mkM 1 [10; 11] 2) [false; false] []; mkMX (mkM 2 [11; 10] 1) [true; false] [5]] /\
   find_measurements [mkOp 1 [10] [false] [] false] = None.
 Proof. exact find_measurements_example. Qed.
+
+(* ================= sequence-valued arguments (model: Codec/ArgSeq.v) ================= *)
+From VF Require Import Codec.ArgSeq Codec.ArgSeqProofs.
+
+(* a list / tuple / set argument of any mixture of bools, numpy bools, integers, floats, strings and other values, in any
+   order, is read back with the same length, every number unchanged (a lone number inside a mixed tuple rounded once to
+   single precision) and every other element as it was: the repeated numeric field is wide enough for EVERY element *)
+Theorem C16_arg_seq_values : forall rnd k xs k' ys,
+  ArgSeq.decode (ArgSeq.encode rnd k xs) = Some (k', ys) -> Forall2 (ArgSeq.same_value rnd) xs ys.
+Proof. exact arg_seq_values. Qed.
+Print Assumptions C16_arg_seq_values.
+
+(* nothing but an integer (int or numpy integer) outside int64 is refused *)
+Theorem C16_arg_seq_defined : forall rnd k xs,
+  (forall z, In (EI z) xs \/ In (ENI z) xs -> ArgSeq.int64 z = true) -> exists r, ArgSeq.decode (ArgSeq.encode rnd k xs) = Some r.
+Proof. exact arg_seq_defined. Qed.
+Print Assumptions C16_arg_seq_defined.
+
+(* a list comes back as a list *)
+Theorem C16_arg_seq_list_kind : forall rnd xs k' ys,
+  ArgSeq.decode (ArgSeq.encode rnd KList xs) = Some (k', ys) -> k' = KList.
+Proof. exact arg_seq_list_kind. Qed.
+Print Assumptions C16_arg_seq_list_kind.
+
+(* the statement "a sequence comes back as the same kind of sequence" is false of the code: a numeric tuple (set,
+   frozenset) is written into a repeated numeric field, which has no sequence type, and comes back as a list *)
+Theorem C16_arg_seq_kind_refuted : exists k xs k' ys,
+  ArgSeq.decode (ArgSeq.encode (fun q => q) k xs) = Some (k', ys) /\ k' <> k.
+Proof. exact arg_seq_kind_refuted. Qed.
+Print Assumptions C16_arg_seq_kind_refuted.
+
+(* choosing the field from the leading element alone would not keep the numbers ([1, 2.5] -> [1, 2]) *)
+Theorem C16_arg_seq_leading_rule_refuted : exists xs k' ys,
+  ArgSeq.decode (ArgSeq.encode_leading KList xs) = Some (k', ys) /\
+  ~ Forall2 (ArgSeq.same_value (fun q => q)) xs ys.
+Proof. exact arg_seq_leading_rule_refuted. Qed.
+Print Assumptions C16_arg_seq_leading_rule_refuted.
+
+Example C16_arg_seq_example :
+  let id := fun q : Q => q in
+  ArgSeq.encode id KList [EI 1; EF (5 # 2); EB true] = WDoubles [1 # 1; 5 # 2; 1 # 1]%Q /\
+  ArgSeq.encode id KList [EB true; EI 3; EB false] = WInts [1; 3; 0]%Z /\
+  ArgSeq.encode id KTuple [EB true; ENB false] = WBools [true; false] /\
+  ArgSeq.encode id KList [EI 3; ENB true] = WTuple KList [SFloat (3 # 1); SBool true] /\
+  ArgSeq.encode id KList [ENI 4; EF (3 # 4)] = WDoubles [4 # 1; 3 # 4]%Q /\
+  ArgSeq.encode id KList [EF (3 # 4); ENI 4] = WTuple KList [SFloat (3 # 4); SFloat (4 # 1)] /\
+  ArgSeq.encode id KTuple [ES 7; ES 8] = WTuple KTuple [SStr 7; SStr 8] /\
+  ArgSeq.encode id KList [ES 7; ES 8] = WStrings [7; 8]%Z /\
+  ArgSeq.encode id KList [EI (2 ^ 63)] = WRefused /\
+  (forall z, In (EI z) [EI 5; EF (1 # 2)] \/ In (ENI z) [EI 5; EF (1 # 2)] -> ArgSeq.int64 z = true) /\
+  ArgSeq.decode (ArgSeq.encode id KSet [EI 1; EF (5 # 2)]) = Some (KList, [EF (1 # 1); EF (5 # 2)]).
+Proof. exact arg_seq_example. Qed.
